@@ -456,17 +456,30 @@ def rule_e(prog, rep):
     if len(ms) != 1:
         res.append('no match on the confirmation receiver')
     else:
+        # per arm of `match rx.await`: which message is sent - either inside the arm, or the arm only chooses the message that is
+        # sent once after the match
+        per_arm = {}
         for arm in ms[0]['arms']:
-            vs = {short(v) for v in pat_variants(arm['pat'])}
+            vs = frozenset(short(v) for v in pat_variants(arm['pat']))
             sent = [server_message_sent(x, ab) for x, _ in walk(arm['body']) if x.get('k') == 'call']
-            sent = [s for s in sent if s]
-            if vs == {'Ok'} and [s[0] for s in sent] != ['Ack']:
-                res.append(f'grant answered with {[s[0] for s in sent]}')
-            if vs == {'Err'}:
-                if [s[0] for s in sent] != ['Err']:
-                    res.append(f'cancellation answered with {[s[0] for s in sent]}')
-                elif not any(ctor_name(x) and 'ErrorCode::LockAcquisitionCancelled' in ctor_name(x) for x, _ in walk(arm['body'])):
-                    res.append('cancellation not reported as LockAcquisitionCancelled')
+            per_arm[vs] = [(s_[0], s_[1]) for s_ in sent if s_]
+        if not any(per_arm.values()):
+            per_arm = {}
+            sends = [server_message_sent(x, ab) for x, _ in crate.walk_fn(a) if x.get('k') == 'call']
+            sends = [s_ for s_ in sends if s_ and any(al[3] is ms[0]['scrut'] for al in s_.alts)]
+            if len(sends) == 1:
+                for (variant, payload, armvs, scrut) in sends[0].alts:
+                    per_arm.setdefault(armvs, []).append((variant, payload))
+        ok_arm = per_arm.get(frozenset({'Ok'}), [])
+        err_arm = per_arm.get(frozenset({'Err'}), [])
+        if [x[0] for x in ok_arm] != ['Ack']:
+            res.append(f'grant answered with {[x[0] for x in ok_arm]}')
+        if [x[0] for x in err_arm] != ['Err']:
+            res.append(f'cancellation answered with {[x[0] for x in err_arm]}')
+        elif not any(ctor_name(x) and 'ErrorCode::LockAcquisitionCancelled' in ctor_name(x) for x, _ in walk(err_arm[0][1] or {})) and \
+                not any(ctor_name(x) and 'ErrorCode::LockAcquisitionCancelled' in ctor_name(x)
+                        for arm in ms[0]['arms'] if {short(v) for v in pat_variants(arm['pat'])} == {'Err'} for x, _ in walk(arm['body'])):
+            res.append('cancellation not reported as LockAcquisitionCancelled')
     if res:
         rep.violation('C06.e', 'V1::acquire_lock', a.loc, '; '.join(res), key='C06.e/acquire_lock/' + '|'.join(res))
     else:
